@@ -473,7 +473,19 @@ class Ctx:
             )
         else:
             self.stats.violations.append({'sig': sig, 'more': 1})
-        raise ViolationFound()
+        if not self._soft:
+            raise ViolationFound()
+
+    _soft = False
+
+    def soft_violation(self, sig: str, detail: Any = None) -> None:
+        """records a counterexample but lets the path continue (used where the harness re-synchronises
+        after a divergence that is already on record, so that the behaviour behind it stays covered)"""
+        self._soft = True
+        try:
+            self.violation(sig, detail)
+        finally:
+            self._soft = False
 
     def check(self, cond: Any, sig: str, detail: Any = None) -> None:
         if not cond:
@@ -582,6 +594,9 @@ class ConcreteCtx:
     def violation(self, sig: str, detail: Any = None, values: dict | None = None) -> None:
         self.violations.append({'sig': sig, 'detail': detail if isinstance(detail, (str, int, type(None), list, dict)) else repr(detail)})
         raise ViolationFound()
+
+    def soft_violation(self, sig: str, detail: Any = None) -> None:
+        self.violations.append({'sig': sig, 'detail': detail if isinstance(detail, (str, int, type(None), list, dict)) else repr(detail)})
 
     def check(self, cond: Any, sig: str, detail: Any = None) -> None:
         if not cond:
